@@ -1,0 +1,71 @@
+//go:build verif
+// +build verif
+
+// Contracts for deductive verification (govc, /verif). Comment-only file.
+
+package tdpos
+
+// ---- The TDPoS slot function, written from the property (closed form) ----
+// Times in milliseconds. A term lasts termTime; inside a term, after
+// termInterval - alternateInterval, each of the proposerNum validators owns a
+// window of posTime = alternateInterval + period*(blockNum-1); inside its window,
+// after alternateInterval - period, it owns blockNum consecutive slots of length
+// period. blockPos == -1 means "no producer is entitled at this instant".
+//
+//@ macro tdT(ts) = ts / 1000000
+//@ macro tdTermTime(s) = s.termInterval + (s.blockNum - 1) * s.proposerNum * s.period + (s.proposerNum - 1) * s.alternateInterval
+//@ macro tdPosTime(s) = s.alternateInterval + s.period * (s.blockNum - 1)
+//@ macro tdTermStart(s, term) = s.initTimestamp / 1000000 + (term - 1) * tdTermTime(s)
+//@ macro tdTermBegin(s, term) = tdTermStart(s, term) + s.termInterval - s.alternateInterval
+//@ macro tdPropBegin(s, term, pos) = tdTermBegin(s, term) + pos * tdPosTime(s) + s.alternateInterval - s.period
+//@ macro tdCfgOK(s) = s.period >= 1 && s.blockNum >= 1 && s.proposerNum >= 1 && s.alternateInterval >= s.period && s.termInterval >= s.alternateInterval && s.initTimestamp >= 0
+//
+//@ opaque spec func tdposSlot(s *tdposSchedule, ts int, term int, pos int, bp int) bool =
+//@   ts < s.initTimestamp ? (term == 0 && pos == 0 && bp == 0) :
+//@   (term >= 1 && tdTermStart(s, term) <= tdT(ts) && tdT(ts) < tdTermStart(s, term + 1)
+//@    && (tdT(ts) <= tdTermBegin(s, term) ? (pos == 0 && bp == 0 - 1) :
+//@        (pos >= 0 && tdTermBegin(s, term) + pos * tdPosTime(s) <= tdT(ts) && tdT(ts) < tdTermBegin(s, term) + (pos + 1) * tdPosTime(s)
+//@         && (tdT(ts) <= tdPropBegin(s, term, pos) ? bp == 0 - 1 :
+//@             (bp >= 0 && tdPropBegin(s, term, pos) + bp * s.period <= tdT(ts) && tdT(ts) < tdPropBegin(s, term, pos) + (bp + 1) * s.period)))))
+
+//@ func tdposSchedule.minerScheduling
+//@   property C16
+//@   requires cfg: tdCfgOK(s)
+//@   requires ts_nonneg: timestamp >= 0
+//@   reveals tdposSlot
+//@   ensures slot: tdposSlot(s, timestamp, term, pos, blockPos)
+
+// At most one entitled producer: the slot relation is a function of the timestamp.
+//@ lemma tdpos_slot_unique: forall s *tdposSchedule, ts int, t1 int, p1 int, b1 int, t2 int, p2 int, b2 int :: tdCfgOK(s) && ts >= 0 && tdposSlot(s, ts, t1, p1, b1) && tdposSlot(s, ts, t2, p2, b2) ==> t1 == t2 && p1 == p2 && b1 == b2
+//@   property C16
+//@   reveals tdposSlot
+// Every entitled slot names a validator index below proposerNum and a block index below blockNum.
+//@ lemma tdpos_slot_bounds: forall s *tdposSchedule, ts int, t int, p int, b int :: tdCfgOK(s) && ts >= s.initTimestamp && tdposSlot(s, ts, t, p, b) && b != 0 - 1 ==> 0 <= p && p < s.proposerNum && 0 <= b && b < s.blockNum
+//@   property C16
+//@   reveals tdposSlot
+// Slots are visited in order: later timestamps never map to an earlier (term, validator, block) triple.
+//@ lemma tdpos_slot_monotone: forall s *tdposSchedule, ts1 int, ts2 int, t1 int, p1 int, b1 int, t2 int, p2 int, b2 int :: tdCfgOK(s) && s.initTimestamp <= ts1 && ts1 <= ts2 && tdposSlot(s, ts1, t1, p1, b1) && tdposSlot(s, ts2, t2, p2, b2) && b1 != 0 - 1 && b2 != 0 - 1 ==> t1 < t2 || (t1 == t2 && (p1 < p2 || (p1 == p2 && b1 <= b2)))
+//@   property C16
+//@   reveals tdposSlot
+// Two instants in the same slot are less than one period apart (slots do not overlap and have the configured length).
+//@ lemma tdpos_slot_width: forall s *tdposSchedule, ts1 int, ts2 int, t int, p int, b int :: tdCfgOK(s) && s.initTimestamp <= ts1 && ts1 <= ts2 && tdposSlot(s, ts1, t, p, b) && tdposSlot(s, ts2, t, p, b) && b != 0 - 1 ==> tdT(ts2) - tdT(ts1) < s.period
+//@   property C16
+//@   reveals tdposSlot
+// Every validator gets each of its blockNum slots in every term (period >= 2).
+//@ lemma tdpos_slot_hit: forall s *tdposSchedule, t int, p int, b int :: tdCfgOK(s) && s.period >= 2 && t >= 1 && 0 <= p && p < s.proposerNum && 0 <= b && b < s.blockNum ==> tdposSlot(s, (tdPropBegin(s, t, p) + b * s.period + 1) * 1000000, t, p, b)
+//@   property C16
+//@   reveals tdposSlot
+
+// The validator list in force for a block: a function of the block's height,
+// timestamp and consensus storage and of the (unchanging) ledger.
+//@ func tdposSchedule.CalOldProposers
+//@   noverify
+//@   pure
+
+// A block is accepted only from the validator entitled at the block's own timestamp.
+//@ func tdposConsensus.CheckMinerMatch
+//@   property C16
+//@   requires cfg: tdCfgOK(tp.election)
+//@   requires ts_nonneg: block.GetTimestamp() >= 0
+//@   ensures entitled_producer: result0 ==> (exists t int, p int, b int :: tdposSlot(tp.election, block.GetTimestamp(), t, p, b) && 0 <= b && b < tp.election.blockNum && p < tp.election.proposerNum
+//@       && tp.election.CalOldProposers(block.GetHeight(), block.GetTimestamp(), block.GetConsensusStorage())[p] == str(block.GetProposer()))
